@@ -52,7 +52,13 @@ Definition enc_dt (d : Z) : Z * Z := enc_us (d - TDMS_EPOCH_US).
 (* ---- timestamp.py: resolutions -------------------------------------------
      _steps_per_second = {'s': 1, 'ms': 10 ** 3, 'us': 10 ** 6, 'ns': 10 ** 9}
      _fraction_tolerance = 2 ** 12
-   ('ps' keeps the float path and is not modelled: not claimed by C12.) *)
+   ('ps' keeps the float path and is not modelled: not claimed by C12.)
+   The tolerance (2^12 units = 2^-52 s, added before truncating) is what keeps
+   fractions written by truncating float encoders readable: the unchanged
+   encoder and the test-suite's own generator store up to 1858 units less than
+   the exact value of the microsecond (measured over all 10^6 values), which an
+   exact floor would read back one microsecond early; the test-suite also pins
+   669260.594 us -> 669260, which excludes rounding to nearest. *)
 Inductive resolution := Rs | Rms | Rus | Rns.
 
 Definition steps_per_second (r : resolution) : Z :=
